@@ -36,7 +36,8 @@ MANIFEST = {
             'publications bounded (no circulation).  The default of the '
             'forward flag is observed on the real AgentComponent / '
             'ClientComponent.advance.'
-            '  Third session: the forward flag published by advance() is observed over generated things (single/bulk, tasks bound to a pilot or not, pilots, every state, other keyword arguments).',
+            '  Third session: the forward flag published by advance() is observed over generated things (single/bulk, tasks bound to a pilot or not, pilots, every state, other keyword arguments).'
+            '  Two threads (of one component or of two components of the process) advance different things with different forward flags at the same time (LINE perturbation of advance/publish): every update is published exactly once with its own flag.',
     'note': 'transport is the in-memory shim (one total order per pubsub, no '
             'loss): PUB/SUB slow-joiner loss of real ZMQ is outside the check; '
             'the proxy is a shared pubsub as in proxy.py.'}
@@ -363,9 +364,91 @@ def check_advance_things(res, rng, n):
                 return
 
 
+def advance_threads(res, rng, idx):
+    """two components of one process (as the client and agent sides have
+    them) advance different things at the same time, with different forward
+    flags: every update is published exactly once, with its own flag"""
+    import time
+    from ..popsim import Perturb
+
+    seed  = rng.randint(0, 2 ** 30)
+    pert  = Perturb(seed, 0.4, funcs=[m_comp.BaseComponent.advance,
+                                      m_comp.BaseComponent.publish])
+    pubs  = RecPublisher(rpc.STATE_PUBSUB)
+    plans = list()
+    comps = list()
+    same  = rng.random() < 0.5          # one component, two of its threads
+    for k in range(2):
+        if k == 0 or not same:
+            cls = rng.choice([m_comp.AgentComponent, m_comp.ClientComponent])
+            c = cls.__new__(cls)
+            c._log, c._prof = NullLog(), NullProf()
+            c._uid = 'comp.%04d' % k
+            c._publishers = {rpc.STATE_PUBSUB: pubs}
+            c._outputs = dict()
+        comps.append(c)
+        plan = list()
+        for j in range(rng.randint(2, 6)):
+            fwd   = rng.choice([True, False])
+            state = rng.choice([rps.AGENT_EXECUTING, rps.AGENT_STAGING_OUTPUT,
+                                rps.TMGR_SCHEDULING])
+            things = [{'uid': 't.%d.%d.%d' % (k, j, i), 'type': 'task',
+                       'state': rps.NEW} for i in range(rng.randint(1, 3))]
+            plan.append((things, state, fwd))
+        plans.append(plan)
+
+    errs = list()
+
+    def work(c, plan):
+        try:
+            for things, state, fwd in plan:
+                c.advance(things, state, publish=True, push=False, fwd=fwd)
+                time.sleep(0)
+        except Exception as e:
+            errs.append(repr(e))
+
+    ts = [mt.Thread(target=work, args=[comps[k], plans[k]], daemon=True,
+                    name='advance-%d' % k) for k in range(2)]
+    try:
+        for t in ts: t.start()
+        for t in ts: t.join(timeout=20)
+    finally:
+        pert.stop()
+    res.count('advance_thread_histories')
+    ctx_ = {'seed': seed, 'same_component': same, 'errors': errs,
+            'plans': [[([t['uid'] for t in th], st, fw) for th, st, fw in p]
+                      for p in plans]}
+    if any(t.is_alive() for t in ts):
+        res.inconc('advance threads still busy after 20 s')
+        return
+    for e in errs:
+        res.violation('advance-threads/raised', e, ctx_)
+        return
+    got = dict()
+    for msg in pubs.msgs:
+        for t in ru.as_list(msg.get('arg')):
+            got.setdefault(t['uid'], list()).append(bool(msg.get('fwd')))
+    for plan in plans:
+        for things, state, fwd in plan:
+            for t in things:
+                res.count('advance_thread_updates_checked')
+                seen = got.get(t['uid'], [])
+                if seen != [fwd]:
+                    res.violation('advance-threads/update-not-published-'
+                                  'exactly-once', '%s advanced with fwd=%s was '
+                                  'published %d time(s) with flags %s'
+                                  % (t['uid'], fwd, len(seen), seen), ctx_)
+                    return
+
+
 def run(ctx):
     res = Result()
     run_cells(ctx, res)
+    trng = ctx.rng('advance-threads')
+    for i in range(ctx.n(240, 20000)):
+        advance_threads(res, trng, i)
+        if len(res.violations) > 5:
+            break
     res.exhaustive = True
     if ctx.shard == 0:
         check_advance_defaults(res)
